@@ -1642,6 +1642,30 @@ static hawk_val_t* run_bpae_loop (hawk_rtx_t* rtx)
 	return retv;
 }
 
+/* flush all buffered io data at the end of hawk_rtx_loop() and hawk_rtx_callfun().
+ * output that cannot be written out is lost. the run must not be reported as
+ * successful then. if the run has failed already, the error that ended it is kept */
+static hawk_val_t* flush_ios_at_end (hawk_rtx_t* rtx, hawk_val_t* retv)
+{
+	if (retv)
+	{
+		if (hawk_rtx_flushallios(rtx) <= -1)
+		{
+			hawk_rtx_refdownval (rtx, retv);
+			retv = HAWK_NULL;
+		}
+	}
+	else
+	{
+		hawk_errinf_t errinf;
+		hawk_rtx_geterrinf (rtx, &errinf);
+		hawk_rtx_flushallios (rtx);
+		hawk_rtx_seterrinf (rtx, &errinf);
+	}
+
+	return retv;
+}
+
 /* start the BEGIN-pattern block-END loop */
 hawk_val_t* hawk_rtx_loop (hawk_rtx_t* rtx)
 {
@@ -1682,9 +1706,7 @@ hawk_val_t* hawk_rtx_loop (hawk_rtx_t* rtx)
 	rtx->exit_level = EXIT_NONE;
 
 	/* flush all buffered io data */
-	hawk_rtx_flushallios (rtx);
-
-	return retv;
+	return flush_ios_at_end(rtx, retv);
 }
 
 hawk_val_t* hawk_rtx_execwithucstrarr (hawk_rtx_t* rtx, const hawk_uch_t* args[], hawk_oow_t nargs)
@@ -1837,12 +1859,10 @@ hawk_val_t* hawk_rtx_callfun (hawk_rtx_t* rtx, hawk_fun_t* fun, hawk_val_t* args
 		hawk_rtx_refupval (rtx, v);
 	}
 
-	/* flush all buffered io data */
-	hawk_rtx_flushallios (rtx);
-
-	/* return the return value with its reference count at least 1.
+	/* flush all buffered io data.
+	 * return the return value with its reference count at least 1.
 	 * the caller of this function should count down its reference. */
-	return v;
+	return flush_ios_at_end(rtx, v);
 }
 
 /* call an AWK function by name */
